@@ -5,6 +5,8 @@ import (
 	"encoding/json"
 	"fmt"
 	"github.com/bloxapp/ssv/network/peers"
+	operatordatastore "github.com/bloxapp/ssv/operator/datastore"
+	registrystorage "github.com/bloxapp/ssv/registry/storage"
 	"github.com/ethereum/go-ethereum/p2p/enr"
 	"os"
 	"runtime"
@@ -42,7 +44,37 @@ type Input struct {
 
 type Prog struct {
 	Signed bool    `json:"signed"`
+	Own    string  `json:"own,omitempty"` // the node's own-operator store (WithOwnOperatorID): "" none, not-ready, member, outsider
 	Inputs []Input `json:"inputs"`
+}
+
+// ownOpts builds the validator options for the node-side configuration: cli/operator always wires an operator data
+// store in; it is not ready on an exporter or on an operator that is not registered yet.
+func ownOpts(own string) []validation.Option {
+	switch own {
+	case "not-ready":
+		return []validation.Option{validation.WithOwnOperatorID(operatordatastore.New(nil))}
+	case "member":
+		return []validation.Option{validation.WithOwnOperatorID(operatordatastore.New(&registrystorage.OperatorData{ID: 2}))}
+	case "outsider":
+		return []validation.Option{validation.WithOwnOperatorID(operatordatastore.New(&registrystorage.OperatorData{ID: 99}))}
+	}
+	return nil
+}
+
+var genOwn = rapid.SampledFrom([]string{"", "", "not-ready", "not-ready", "member", "outsider"})
+
+// returns runs f on its own goroutine and reports whether it returned within the allowance (a call that waits for
+// something the input cannot provide never does; the goroutine is left behind).
+func returns(f func()) bool {
+	done := make(chan struct{})
+	go func() { defer close(done); f() }()
+	select {
+	case <-done:
+		return true
+	case <-time.After(20 * time.Second):
+		return false
+	}
 }
 
 // allocation allowance per call: c*len(input)+C (bytes)
@@ -60,9 +92,9 @@ var maxAllocRatio float64
 
 func run(p Prog) *prog.Result {
 	res := &prog.Result{}
-	env := valfx.NewEnv(p.Signed)
-	env.AddDuties(16)              // proposer / sync-committee duties registered: those roles' messages get past the duty rule
-	env2 := valfx.NewEnv(p.Signed) // for the ValidatePubsubMessage wrapper (it reads the wall clock)
+	env := valfx.NewEnv(p.Signed, ownOpts(p.Own)...)
+	env.AddDuties(16)                                 // proposer / sync-committee duties registered: those roles' messages get past the duty rule
+	env2 := valfx.NewEnv(p.Signed, ownOpts(p.Own)...) // for the ValidatePubsubMessage wrapper (it reads the wall clock)
 	classes := map[string]bool{}
 	deep := 0
 	for i, in := range p.Inputs {
@@ -79,15 +111,27 @@ func run(p Prog) *prog.Result {
 		}
 		var verr error
 		var sig, detail string
+		returned := true
 		n := allocated(func() {
-			r := prog.Guard(func() *prog.Result {
-				_, _, verr = validation.ValidateP2PMessageAt(env.MV, valfx.PMsg(topic, data), recv)
-				return &prog.Result{}
+			returned = returns(func() {
+				r := prog.Guard(func() *prog.Result {
+					_, _, verr = validation.ValidateP2PMessageAt(env.MV, valfx.PMsg(topic, data), recv)
+					return &prog.Result{}
+				})
+				if r.Fail != nil {
+					sig, detail = r.Fail.Sig, r.Fail.Msg
+				}
 			})
-			if r.Fail != nil {
-				sig, detail = r.Fail.Sig, r.Fail.Msg
-			}
 		})
+		if !returned {
+			st := goroutineDump()
+			if !parkedInValidation(st) {
+				res.Discard = true // slow machine, not a structural hang
+				return res
+			}
+			res.Fail = prog.Failf("C08:validation-hang", "input #%d (len %d, own-operator store %q): validation had not returned after 20 s and is parked on a lock / condition:\n%s", i, len(data), p.Own, firstStacks(st))
+			return res
+		}
 		if sig != "" {
 			res.Fail = prog.Failf(sig, "input #%d (len %d) panicked inside validation:\n%s", i, len(data), detail)
 			return res
@@ -350,7 +394,7 @@ func genInput(t *rapid.T) Input {
 }
 
 func gen(t *rapid.T) Prog {
-	p := Prog{Signed: rapid.Bool().Draw(t, "signed")}
+	p := Prog{Signed: rapid.Bool().Draw(t, "signed"), Own: genOwn.Draw(t, "own")}
 	n := rapid.IntRange(1, 16).Draw(t, "ninputs")
 	for i := 0; i < n; i++ {
 		var earlier []int
@@ -389,6 +433,7 @@ func TestPropValidateNoCrash(t *testing.T) { prog.Check(t, "C08", "TestPropValid
 
 type ConcProg struct {
 	Signed  bool        `json:"signed"`
+	Own     string      `json:"own,omitempty"`
 	Specs   []vmsg.Spec `json:"specs"`
 	Workers int         `json:"workers"`
 }
@@ -397,7 +442,7 @@ type ConcProg struct {
 // structurally: after a generous wait every unfinished worker must be parked on a mutex inside message validation.
 func runConc(p ConcProg) *prog.Result {
 	res := &prog.Result{NonTrivial: len(p.Specs) >= 2}
-	env := valfx.NewEnv(p.Signed)
+	env := valfx.NewEnv(p.Signed, ownOpts(p.Own)...)
 	env.AddDuties(16)
 	type in struct {
 		topic string
@@ -439,11 +484,9 @@ func runConc(p ConcProg) *prog.Result {
 				return res
 			}
 		case <-deadline:
-			buf := make([]byte, 1<<20)
-			st := string(buf[:runtime.Stack(buf, true)])
-			parked := strings.Count(st, "message/validation.(*messageValidator)") > 0 && (strings.Contains(st, "sync.(*Mutex).Lock") || strings.Contains(st, "sync.(*RWMutex)"))
-			if parked {
-				res.Fail = prog.Failf("C08:validation-hang", "%d of %d concurrent validations returned no verdict within 20 s; unfinished goroutines are parked on a mutex inside message validation:\n%s", total-got, total, firstStacks(st))
+			st := goroutineDump()
+			if parkedInValidation(st) {
+				res.Fail = prog.Failf("C08:validation-hang", "%d of %d concurrent validations returned no verdict within 20 s; unfinished goroutines are parked on a lock / condition inside message validation:\n%s", total-got, total, firstStacks(st))
 			} else {
 				res.Discard = true // slow machine, not a structural hang
 			}
@@ -451,6 +494,28 @@ func runConc(p ConcProg) *prog.Result {
 		}
 	}
 	return res
+}
+
+func goroutineDump() string {
+	buf := make([]byte, 1<<20)
+	return string(buf[:runtime.Stack(buf, true)])
+}
+
+// parkedInValidation: some goroutine is inside message validation and blocked on a synchronisation primitive (a
+// structural hang, as opposed to a slow machine, where the goroutines are runnable or running).
+func parkedInValidation(st string) bool {
+	for _, g := range strings.Split(st, "\n\n") {
+		if !strings.Contains(g, "message/validation.(*messageValidator)") {
+			continue
+		}
+		head := strings.SplitN(g, "\n", 2)[0]
+		for _, w := range []string{"sync.Mutex.Lock", "sync.RWMutex", "sync.Cond.Wait", "semacquire", "chan receive", "chan send", "select"} {
+			if strings.Contains(head, w) {
+				return true
+			}
+		}
+	}
+	return false
 }
 
 func firstStacks(st string) string {
@@ -467,7 +532,7 @@ func firstStacks(st string) string {
 }
 
 func genConc(t *rapid.T) ConcProg {
-	p := ConcProg{Signed: rapid.Bool().Draw(t, "signed"), Workers: rapid.IntRange(2, 4).Draw(t, "workers")}
+	p := ConcProg{Signed: rapid.Bool().Draw(t, "signed"), Own: genOwn.Draw(t, "own"), Workers: rapid.IntRange(2, 4).Draw(t, "workers")}
 	if raceEnabled {
 		p.Signed = false
 	}
